@@ -22,6 +22,26 @@ def short(k):
     return k.replace("vicinal::", "")
 
 
+def _join_sites(prog, b):
+    """Where `b` joins thread handles: direct `JoinHandle::join` calls, or - when none - the adaptor call that applies join to
+    every element: `handles.into_iter().try_for_each(JoinHandle::join)` / `.for_each(|h| .. h.join() ..)`."""
+    jn = [(bb, t) for bb, t in b.calls() if t["callee"].get("method") == "join" and "JoinHandle" in callee_key(t["callee"]) and not b.blocks[bb].cleanup]
+    if jn:
+        return jn
+    for bb, t in b.calls():
+        if t["callee"].get("method") in ("try_for_each", "for_each") and not b.blocks[bb].cleanup:
+            fi = [a for a in t["args"] if a.get("k") == "const" and strip_generics(a.get("fndef") or "").endswith("JoinHandle::join")]
+            if fi:
+                jn.append((bb, t))
+    if not jn:
+        from ..analysis import element_ops
+        for o in element_ops(prog, b, lambda tt: tt["callee"].get("method") == "join" and "JoinHandle" in callee_key(tt["callee"])):
+            if o["ok"] and o["form"].startswith("closure->") and o["in"] is b:
+                rc = [(bb, t) for bb, t in b.calls() if t["args"] and o["src"] is not None and t["args"][0] is o["src"]]
+                jn.extend(rc[:1])
+    return jn
+
+
 def run(ctx):
     ctx.explanation = EXPL
     ctx.not_decided = NOT
@@ -94,6 +114,16 @@ def run(ctx):
         ctx.missing("R1.no-lost-wakeup", "Scheduler::spawn_internal / spawn_internal_and_forget")
     for b in sched:
         ctx.fn(b)
+        # every spawn makes sure THIS pool has workers for the processor, unconditionally, before the task is queued: the start-up
+        # is idempotent per (pool, processor); any shortcut decided from thread- or process-wide state is wrong for a second pool
+        ens = [bb for bb, _t in calls_to(b, "pool::PoolInner::ensure_workers_spawned")]
+        pushes0 = [bb for bb, t in b.calls() if t["callee"].get("method") == "push_back" and "VecDeque" in callee_key(t["callee"])]
+        pc_e = path_count(b, ens)
+        dom_e = b.dominators(unwind=False)
+        ok_e = pc_e is not None and pc_e[0] >= 1 and all(any(e in dom_e[p_] for e in ens) for p_ in pushes0)
+        ctx.ob("R3.same-processor", f"{b.name}.workers-ensured-before-enqueue", ok_e, b.loc(),
+               f"ensure_workers_spawned per normal path {pc_e}; dominates every push_back: {ok_e}" +
+               ("" if ok_e else " - a task can be queued on a live pool that has no worker for the processor: it never runs and its handle never resolves"))
         pushes = [(bb, t) for bb, t in b.calls() if t["callee"].get("method") == "push_back" and "VecDeque" in callee_key(t["callee"])]
         notes = [(bb, t) for bb, t in b.calls() if t["callee"].get("method") == "notify" and "event_listener" in callee_key(t["callee"])]
         ok = len(pushes) in (1, 2) and len(notes) == 1
@@ -160,7 +190,10 @@ def run(ctx):
     else:
         b = tw[0]
         ctx.fn(b)
-        takes = [(bb, t) for bb, t in b.calls() if t["callee"].get("method") == "take" and "Option" in callee_key(t["callee"])]
+        # the closure is moved OUT of the wrapper, leaving an inert value behind: Option::take, or mem::replace / mem::take on the field
+        takes = [(bb, t) for bb, t in b.calls() if (t["callee"].get("method") == "take" and "Option" in callee_key(t["callee"])) or
+                 (callee_key(t["callee"]) in ("std::mem::replace", "core::mem::replace", "std::mem::take", "core::mem::take") and t["args"] and
+                  any(f.endswith("::task") and "TaskWrapper" in f for f in Slice(b, through_calls=False).run(t["args"][0])["fields"]))]
         calls = [(bb, t) for bb, t in b.calls() if (uc.direct(b, bb) or ("",))[0] == "P" or
                  ((t["callee"].get("trait") or "").endswith("ops::FnOnce") and (t["callee"].get("self_ty") or {}).get("k") == "param")]
         dom = b.dominators(unwind=False)
@@ -198,6 +231,31 @@ def run(ctx):
                 det += f"; sender.send(result of catch_unwind) on every path after it: {okp}"
             ctx.ob("R2.run-once-result-always-sent", f"{name}.closure", ok, cl.loc(), det)
 
+    # a worker takes ONE task at a time out of the shared queues: tasks it has not started stay visible to its sibling workers (a
+    # task that waits for a later one in the same queue would otherwise starve while a sibling sleeps on an "empty" queue)
+    bulk = []
+    n_q = 0
+    for b in prog.bodies:
+        if not b.key.startswith("vicinal::worker::") or "::tests" in b.key:
+            continue
+        for bb, t in b.calls():
+            if b.blocks[bb].cleanup or not t["args"]:
+                continue
+            k = callee_key(t["callee"])
+            m = t["callee"].get("method")
+            touches = [a for a in t["args"] if a.get("k") in ("copy", "move") and
+                       any(f.endswith("::regular_queue") or f.endswith("::urgent_queue") for f in Slice(b).run(a)["fields"])]
+            if not touches:
+                continue
+            n_q += 1
+            if k in ("std::mem::swap", "core::mem::swap", "std::mem::take", "core::mem::take", "std::mem::replace", "core::mem::replace") or \
+                    (m in ("drain", "split_off", "append", "clear", "retain", "truncate", "extend", "into_iter", "iter_mut", "make_contiguous") and "VecDeque" in k):
+                bulk.append(f"{m or k.split('::')[-1]} in {short(b.key)} at {b.loc(t['span'])}")
+    if n_q == 0:
+        ctx.missing("R1.no-lost-wakeup", "uses of the shared task queues in vicinal::worker")
+    else:
+        ctx.ob("R1.no-lost-wakeup", "worker.one-task-at-a-time", not bulk, "",
+               f"{n_q} operation(s) on the shared queues in the worker; bulk removals (whole-queue swap/take/drain/..): {bulk or 'none'}")
     # ---------------- R3 worker pins
     ews = prog.one("pool::PoolInner::ensure_workers_spawned")
     if ews is None:
@@ -234,14 +292,18 @@ def run(ctx):
             ctx.ob("R3.same-processor", "worker.pins-before-loop", ok and okf and len(ta) == 1, wcl.loc(),
                    f"pin_current_thread_to precedes worker_loop: {ok}; set built by filter(p.id() == processor_id).take_all(): {okf and len(ta)==1}")
         # the closure captures the parameter processor_id
-        sp = [(bb, t) for bb, t in ews.calls() if t["callee"].get("method") in ("spawn", "spawn_unchecked") and "thread" in callee_key(t["callee"])]
+        # (the spawn may sit in ensure_workers_spawned itself or in a closure it hands to an iterator adaptor: `(0..n).map(|i| spawn(..))`)
+        spawners = [ews] + prog.closures_of(ews)
+        sp = [(bd, bb, t) for bd in spawners for bb, t in bd.calls() if t["callee"].get("method") in ("spawn", "spawn_unchecked") and "thread" in callee_key(t["callee"])]
         ok = len(sp) == 1
         if ok and wcl is not None:
-            caps = closure_capture_ops(ews, wcl.key)
+            from .c02 import deep_slice
+            parent = sp[0][0]
+            caps = closure_capture_ops(parent, wcl.key)
             ok = bool(caps)
             names = {u["name"] for u in wcl.d.get("upvars", [])}
             for _bb, ops in caps:
-                okc = any(2 in Slice(ews, through_calls=False).run(o)["args"] for o in ops)
+                okc = any((ews.key, 2) in deep_slice(prog, parent, o)["args"] for o in ops)
                 ok = ok and okc and "processor_id" in names
         ctx.ob("R3.same-processor", "worker.captures-parameter-id", ok, ews.loc(), "the spawned closure captures ensure_workers_spawned's processor_id parameter")
         goi = calls_to(ews, "processor_registry::ProcessorRegistry::get_or_init")
@@ -258,20 +320,7 @@ def run(ctx):
         st = [e for e in atomic_events(ja) if e["op"] == "store" and e["field"] and e["field"].endswith("PoolInner::shutdown")]
         sig = calls_to(ja, "processor_registry::ProcessorRegistry::signal_shutdown_all")
         tk = [(bb, t) for bb, t in ja.calls() if callee_key(t["callee"]) in ("std::mem::take", "core::mem::take")]
-        jn = [(bb, t) for bb, t in ja.calls() if t["callee"].get("method") == "join" and "JoinHandle" in callee_key(t["callee"])]
-        if not jn:
-            # `handles.into_iter().try_for_each(JoinHandle::join)` / `.for_each(|h| .. h.join() ..)`: the adaptor call is the join site
-            for bb, t in ja.calls():
-                if t["callee"].get("method") in ("try_for_each", "for_each") and not ja.blocks[bb].cleanup:
-                    fi = [a for a in t["args"] if a.get("k") == "const" and strip_generics(a.get("fndef") or "").endswith("JoinHandle::join")]
-                    if fi:
-                        jn.append((bb, t))
-            if not jn:
-                from ..analysis import element_ops
-                for o in element_ops(prog, ja, lambda tt: tt["callee"].get("method") == "join" and "JoinHandle" in callee_key(tt["callee"])):
-                    if o["ok"] and o["form"].startswith("closure->") and o["in"] is ja:
-                        rc = [(bb, t) for bb, t in ja.calls() if t["args"] and o["src"] is not None and t["args"][0] is o["src"]]
-                        jn.extend(rc[:1])
+        jn = _join_sites(prog, ja)
         ok = len(st) == 1 and len(sig) == 1 and len(tk) == 1 and len(jn) == 1
         det = f"store {len(st)}, signal {len(sig)}, take {len(tk)}, join {len(jn)}"
         if ok:
@@ -308,8 +357,8 @@ def run(ctx):
         ctx.ob("R4.shutdown-order", "ensure_workers_spawned.recheck-under-lock", ok, ews.loc(),
                "new handles are registered only if an Acquire re-read of the shutdown flag, made under the handle-list lock, is false; otherwise they are joined")
         # on the shutdown arm the freshly spawned workers are joined
-        jn2 = [(bb, t) for bb, t in ews.calls() if t["callee"].get("method") == "join"]
-        ctx.ob("R4.shutdown-order", "ensure_workers_spawned.joins-late-workers", len(jn2) == 1 and ews.in_loop(jn2[0][0]), ews.loc(),
+        jn2 = _join_sites(prog, ews)
+        ctx.ob("R4.shutdown-order", "ensure_workers_spawned.joins-late-workers", len(jn2) == 1 and (ews.in_loop(jn2[0][0]) or jn2[0][1]["callee"].get("method") != "join"), ews.loc(),
                "workers spawned after shutdown began are joined by the spawner")
     ss = prog.one("processor_state::ProcessorState::signal_shutdown")
     if ss is not None:
